@@ -65,7 +65,20 @@ func (m *mantarayManifest) Add(ctx context.Context, path string, entry Entry) er
 func (m *mantarayManifest) Remove(ctx context.Context, path string) error {
 	p := []byte(path)
 
-	err := m.trie.Remove(ctx, p, m.ls)
+	// the trie removes whatever fork ends at the path, also a branching point that
+	// carries no entry: only a path that is mapped can be removed
+	node, err := m.trie.LookupNode(ctx, p, m.ls)
+	if err != nil {
+		if errors.Is(err, mantaray.ErrNotFound) {
+			return ErrNotFound
+		}
+		return err
+	}
+	if !node.IsValueType() {
+		return ErrNotFound
+	}
+
+	err = m.trie.Remove(ctx, p, m.ls)
 	if err != nil {
 		if errors.Is(err, mantaray.ErrNotFound) {
 			return ErrNotFound
